@@ -898,6 +898,14 @@ C17_IDIOMS = [
     ('CONFIG.setdefault("NEWKEY", "MUT_%s")',),
     ('CONFIG["NEWKEY2"] = "MUT_%s"',),
     ('CONFIG.setdefault("NEWKEY", ["MUT_%s"])', 'x = CONFIG.NEWKEY', 'x[0] = "again"'),
+    # union / concatenation with an EMPTY operand must still give a value of one's own
+    ('x = DICT_G | {}', 'x["k2"] = "MUT_%s"'),
+    ('e = {}', 'x = gdict() | e', 'x["new"] = "MUT_%s"'),
+    ('x = CONFIG.TOOLCHAIN | {}', 'x["OPT"] = "MUT_%s"'),
+    ('x = DICT_G | {}', 'y = x["k"]', 'y[0] = "MUT_%s"'),
+    # OPEN (DESIGN 12, wave 6): ('x = LIST_G + []', 'x[0] = "MUT_%s"') and ('e = []', 'x = glist() + e', 'x[0] = ...')
+    # reproduce a genuine defect on the unchanged tree (pyList + empty list returns the shared list itself);
+    # to be added together with its `fix:` commit or known-findings entry.
     # default argument values of the build_defs' functions
     ('x = dfltd()', 'x["a"] = "MUT_%s"'),
     ('x = dfltd()', 'y = x["l"]', 'y[0] = "MUT_%s"'),
